@@ -56,7 +56,7 @@ MANIFEST = {
         "design_ref": "DESIGN.md 3/C11, docs/sync.md",
     }
 }
-PROPS = ["Nstd.Sync.Props", "Nstd.Sync.PropsLock", "Nstd.Sync.PropsDeadline"]
+PROPS = ["Nstd.Sync.Props", "Nstd.Sync.PropsLock", "Nstd.Sync.PropsCfg", "Nstd.Sync.PropsDeadline"]
 DRIVER = "drv_sync"
 LEAN_TARGETS = PROPS + [DRIVER]
 LIB_SOURCES = ["Mutex", "Semaphore", "Signal", "Monitor", "Thread", "Memory"]
@@ -735,18 +735,68 @@ def translate_api(repo=None):
                   f"Mutex recursive={f['mutexRecursive']}, Monitor flag0={f['monitorInitFlag']}, sleep x{f['sleepUsPerMs']}; constructors / destructors / yield / getCurrentThreadId shape-pinned")
 
 
+GEN_CFG = C.LEAN / "Nstd" / "Generated" / "SyncCfg.lean"
+CFG_FUNCTIONS = [  # (Lean name, file, regex of the function head, strip the deadline prefix?)
+    ("mutex_lock", "src/Mutex.cpp", r"\bvoid\s+Mutex\s*::\s*lock\s*\(\s*\)", False),
+    ("mutex_tryLock", "src/Mutex.cpp", r"\bbool\s+Mutex\s*::\s*tryLock\s*\(\s*\)", False),
+    ("mutex_unlock", "src/Mutex.cpp", r"\bvoid\s+Mutex\s*::\s*unlock\s*\(\s*\)", False),
+    ("signal_set", "src/Signal.cpp", r"\bvoid\s+Signal\s*::\s*set\s*\(\s*\)", False),
+    ("signal_reset", "src/Signal.cpp", r"\bvoid\s+Signal\s*::\s*reset\s*\(\s*\)", False),
+    ("signal_wait", "src/Signal.cpp", r"\bbool\s+Signal\s*::\s*wait\s*\(\s*\)", False),
+    ("signal_waitT", "src/Signal.cpp", r"\bbool\s+Signal\s*::\s*wait\s*\(\s*int64\s+\w+\s*\)", True),
+    ("monitor_tryLock", "src/Monitor.cpp", r"\bbool\s+Monitor\s*::\s*tryLock\s*\(\s*\)", False),
+    ("monitor_lock", "src/Monitor.cpp", r"\bvoid\s+Monitor\s*::\s*lock\s*\(\s*\)", False),
+    ("monitor_unlock", "src/Monitor.cpp", r"\bvoid\s+Monitor\s*::\s*unlock\s*\(\s*\)", False),
+    ("monitor_wait", "src/Monitor.cpp", r"\bbool\s+Monitor\s*::\s*wait\s*\(\s*\)", False),
+    ("monitor_waitT", "src/Monitor.cpp", r"\bbool\s+Monitor\s*::\s*wait\s*\(\s*int64\s+\w+\s*\)", True),
+    ("monitor_set", "src/Monitor.cpp", r"\bvoid\s+Monitor\s*::\s*set\s*\(\s*\)", False),
+]
+
+
+def translate_cfg(repo=None):
+    """the POSIX-level control-flow tables of the member functions of Mutex / Signal / Monitor (tools/areas/_sync_cfg.py)"""
+    import importlib.util
+    spec = importlib.util.spec_from_file_location("_sync_cfg", str(Path(__file__).with_name("_sync_cfg.py")))
+    G = importlib.util.module_from_spec(spec)
+    spec.loader.exec_module(G)
+    repo = Path(repo or C.REPO)
+    out = ["import Nstd.Sync.Cfg",
+           "/- generated by tools/areas/sync.py (translate_cfg, tools/areas/_sync_cfg.py) from src/{Mutex,Signal,Monitor}.cpp - do not edit -/",
+           "namespace Nstd.Generated.SyncCfg", "open Nstd.Sync.Cfg", ""]
+    n = 0
+    try:
+        for name, rel, head, timed in CFG_FUNCTIONS:
+            src = _strip_comments((repo / rel).read_text())
+            what = head.replace("\\b", "").replace("\\s*", "").replace("\\s+", " ").replace("\\", "")
+            _, body = _method_body(src, head, what)
+            if timed:
+                body = G.strip_deadline(body, what)
+            tab = G.table(body, what)
+            n += len(tab[1])
+            out.append(G.lean_fn(name, f"`{what}` (POSIX branch): `{body}`", tab))
+    except (OSError, TransErr, G.CfgErr) as e:
+        return False, str(e)
+    out.append("end Nstd.Generated.SyncCfg")
+    text = "\n".join(out) + "\n"
+    GEN_CFG.parent.mkdir(parents=True, exist_ok=True)
+    if not GEN_CFG.exists() or GEN_CFG.read_text() != text:
+        GEN_CFG.write_text(text)
+    return True, f"{len(CFG_FUNCTIONS)} member functions, {n} program points"
+
+
 def gen(ctx):
     parts = [("deadline arithmetic of the timed waits -> Nstd/Generated/SyncDeadline.lean: ", translate()),
              ("order of Monitor::set -> Nstd/Generated/SyncMonitorOrder.lean: ", translate_order()),
              ("shape and constants of the sem_timedwait loop + ENOSYS polling loop -> Nstd/Generated/SyncSemPoll.lean: ", translate_poll()),
-             ("Guards, constructors, destructors, Thread::sleep/yield/getCurrentThreadId -> Nstd/Generated/SyncApi.lean: ", translate_api())]
+             ("Guards, constructors, destructors, Thread::sleep/yield/getCurrentThreadId -> Nstd/Generated/SyncApi.lean: ", translate_api()),
+             ("control-flow tables of the member functions of Mutex / Signal / Monitor -> Nstd/Generated/SyncCfg.lean: ", translate_cfg())]
     if ctx is not None:
         ctx.cov["translated"] = "; ".join(h + m for h, (o, m) in parts)
     return all(o for _, (o, _) in parts), "; ".join(m for _, (o, m) in parts if not o)
 
 
 def setup():
-    for ok, msg in (translate(), translate_order(), translate_poll(), translate_api()):
+    for ok, msg in (translate(), translate_order(), translate_poll(), translate_api(), translate_cfg()):
         if not ok:
             print("sync translate:", msg)
 
